@@ -269,7 +269,30 @@ def cond_extra(ctx: Ctx):
     """crafted families in rotation (every family gets its turn even in a short run)"""
     i = getattr(ctx, "_extra_turn", 0)
     ctx._extra_turn = i + 1
-    return [shape_extra, cond_nest_extra, sign_extra, c03_extra, cond_nest_extra][i % 5](ctx)
+    fams = [eq_extra, c03_extra, cond_nest_extra, shape_extra, sign_extra, cond_nest_extra]
+    return fams[(i + ctx.seed) % len(fams)](ctx)
+
+
+def eq_extra(ctx: Ctx):
+    """equalities between an input and a literal / another input, as conditions and as numbers, sampled exactly on the
+    equality, just beside it (relative 1e-7, absolute 1e-4: inside any 'close enough' tolerance, still different doubles)
+    and far from it"""
+    rng = ctx.rng
+    v0 = rng.choice(["-47.13", "0.1", "1", "2.5", "-0.5"])
+    lit = rng.choice(["1", "0.1", "-2"])
+    text = (f"states(x=0.5, y=-0.25, z=1.5)\nparameters(a=0.75, V0={v0})\n"
+            f"q = Conditional(Eq(x, V0), 3.2, x*a)\ndx_dt = q - x\n"
+            f"dy_dt = Eq(y, {lit})*a + Conditional(Eq(z, y), 1, -1)\n"
+            f"dz_dt = Conditional(Or(Eq(z, {lit}), Eq(x, a)), 2, z) + Conditional(Not(Eq(y, V0)), y, 7)\n")
+    V0, L = float(v0), float(lit)
+    base = {"x": 0.3, "y": -1.25, "z": 0.8, "a": 0.75, "V0": V0, "t": 0.5, "dt": 0.01}
+    pts = [dict(base)]
+    for var, val in (("x", V0), ("y", L), ("z", L), ("y", V0), ("x", 0.75)):
+        for d in (0.0, 1e-7 * abs(val) + 1e-12, -1e-4, 3e-9):
+            pts.append({**base, var: val + d})
+    pts.append({**base, "z": -1.25})                     # z == y
+    pts.append({**base, "z": -1.25 * (1 + 1e-7)})
+    return {"text": text, "points": pts}
 
 
 def big_cfg(ctx, k):
@@ -299,7 +322,7 @@ class CEval:
     def ev(self, e, env):
         tag = e[0]
         if tag == "int":
-            return (e[1], True) if self.mode == "c" else (mpf(e[1]), False)
+            return (e[1], True) if self.mode in ("c", "litquot") else (mpf(e[1]), False)
         if tag == "num":
             return (mpf(e[1]) * mpf(10) ** e[2], False)
         if tag == "var":
@@ -312,13 +335,16 @@ class CEval:
         if tag in ("add", "sub", "mul", "div", "cmod"):
             a, ia = self.ev(e[1], env)
             b, ib = self.ev(e[2], env)
+            if self.mode == "litquot" and tag == "div" and ia and ib and _c_int_const(e[1]) and _c_int_const(e[2]):
+                return (sexp.hp_div(mpf(a), mpf(b)), False)
             if ia and ib:
+                wrap = lambda v: ((int(v) + 2 ** 31) % 2 ** 32) - 2 ** 31   # noqa: E731  (int is 32 bits; gcc folds with wrap-around)
                 if tag == "add":
-                    return (a + b, True)
+                    return (wrap(a + b), True)
                 if tag == "sub":
-                    return (a - b, True)
+                    return (wrap(a - b), True)
                 if tag == "mul":
-                    return (a * b, True)
+                    return (wrap(a * b), True)
                 if b == 0:
                     return (mpf("nan"), False)
                 q = abs(a) // abs(b) * (1 if (a >= 0) == (b >= 0) else -1)
@@ -358,15 +384,15 @@ class CEval:
         if tag == "rel":
             a, _ = self.ev(e[2], env)
             b, _ = self.ev(e[3], env)
-            return (1 if sexp.hp_rel(e[1], mpf(a), mpf(b)) else 0, self.mode == "c")
+            return (1 if sexp.hp_rel(e[1], mpf(a), mpf(b)) else 0, self.mode in ("c", "litquot"))
         if tag == "not":
             a, _ = self.ev(e[1], env)
-            return (0 if a != 0 else 1, self.mode == "c")
+            return (0 if a != 0 else 1, self.mode in ("c", "litquot"))
         if tag in ("and", "or"):
             a, _ = self.ev(e[1], env)
             b, _ = self.ev(e[2], env)
             r = (a != 0 and b != 0) if tag == "and" else (a != 0 or b != 0)
-            return (1 if r else 0, self.mode == "c")
+            return (1 if r else 0, self.mode in ("c", "litquot"))
         if tag == "cond":
             c, _ = self.ev(e[1], env)
             a, ia = self.ev(e[2], env)
@@ -375,6 +401,27 @@ class CEval:
                 return ((a if c != 0 else b), True)
             return (mpf(a) if c != 0 else mpf(b), False)
         raise ValueError(tag)
+
+
+def _c_int_const(e) -> bool:
+    """an integer literal, possibly negated / combined with + - * (no variable, no function, no power)"""
+    return e[0] == "int" or (e[0] == "neg" and _c_int_const(e[1])) or (e[0] in ("add", "sub", "mul") and _c_int_const(e[1]) and _c_int_const(e[2]))
+
+
+def model_has_literal_quotient(exprs) -> bool:
+    """does some model expression contain a quotient of two integer-constant subexpressions (`1/4`, `(2 - 7)/3`,
+    `x**(1/2)`)?  That is the recorded finding C02/c/integer-arithmetic; a power such as `2**3` is not an integer
+    constant in this sense (the C printer writes it with pow(), which returns a double)."""
+    def ic(e):
+        return (e[0] == "num" and e[2] == 0) or e[0] == "int" or (e[0] == "neg" and ic(e[1])) or (e[0] in ("add", "sub", "mul") and ic(e[1]) and ic(e[2]))
+
+    def walk(e):
+        if not isinstance(e, tuple):
+            return False
+        if e[0] == "div" and ic(e[1]) and ic(e[2]):
+            return True
+        return any(walk(x) for x in e[1:])
+    return any(walk(e) for e in exprs)
 
 
 def run_c_ir(stmts, inputs, mode):
@@ -523,6 +570,8 @@ def c02_case(ctx: Ctx, case: dict):
             if sexp.agrees(arr[i], ref, abs(ref) * sexp.U * 4) == "bad":
                 f = funcs.get(fn)
                 cls = classify_c(f, i, {}, ref)
+                if cls.startswith("integer-arithmetic") and cls != "integer-arithmetic-elsewhere" and not model_has_literal_quotient([table[nme]]):
+                    cls = cls.replace("integer-arithmetic", "integer-arithmetic-elsewhere")
                 ctx.violate(f"C02/c/{cls}" if cls in ("integer-arithmetic", "fmod-sign", "integer-arithmetic+fmod-sign") else f"C02/c/{fn}/default/{cls}",
                             f"{fn}: slot {i} = {arr[i]!r} but {nme} is declared as {oracle.fmt(ref)}", case=case)
                 break
@@ -591,6 +640,9 @@ def c02_case(ctx: Ctx, case: dict):
                 if cls == "ill-conditioned":
                     ctx.count("ill_conditioned")
                     continue
+                if cls.startswith("integer-arithmetic") and cls != "integer-arithmetic-elsewhere" and not model_has_literal_quotient(list(rm.assigns.values())):
+                    # no quotient of integer constants anywhere in the model text: not the recorded finding
+                    cls = cls.replace("integer-arithmetic", "integer-arithmetic-elsewhere")
                 key = f"C02/c/{cls}" if cls in ("integer-arithmetic", "fmod-sign", "integer-arithmetic+fmod-sign") else f"C02/c/{fn}/value/{cls}"
                 ctx.violate(key, f"{fn} slot {slots[name]} = {oracle.fmt(got)} but the model defines {oracle.fmt(r_)} ({name})",
                             case={**case, "points": [pt], "stiff": stiff})
@@ -606,7 +658,7 @@ def classify_c(f, slot, inputs, ref, spread=mpf(0)):
         inputs = dict(inputs)
         inputs.setdefault("t", 0.0)
         vals = {}
-        for mode in ("c", "real", "floored"):
+        for mode in ("c", "real", "floored", "litquot"):
             vals[mode] = run_c_ir(f.stmts, inputs, mode).get(slot)
     except Exception:
         return "unclassified"
@@ -617,7 +669,8 @@ def classify_c(f, slot, inputs, ref, spread=mpf(0)):
     if close(vals["c"]):
         return "ill-conditioned"
     if close(vals["real"]):
-        return "integer-arithmetic"
+        # the recorded finding is the quotient of integer constants; integer arithmetic anywhere else is something new
+        return "integer-arithmetic" if close(vals["litquot"]) else "integer-arithmetic-elsewhere"
     if close(vals["floored"]):
         return "fmod-sign" if close_pair(vals["c"], vals["real"]) else "integer-arithmetic+fmod-sign"
     return "other"
